@@ -186,6 +186,10 @@ func (lm *levelManager) searchLowerBound(key types.Key) (types.Entry, bool) {
 		return types.Entry{}, false
 	}
 
+	// the newest version <= ts of the key may live in any sstable,
+	// search all of them and keep the newest one
+	var res types.Entry
+	var found bool
 	for level, tables := range lm.levels {
 		for e := tables.Front(); e != nil; e = e.Next() {
 			th := e.Value.(tableHandle)
@@ -196,8 +200,8 @@ func (lm *levelManager) searchLowerBound(key types.Key) (types.Entry, bool) {
 				continue
 			}
 
-			// determine which data block the key is in
-			dataBlockHandle, ok := th.dataBlockIndex.Search(key)
+			// determine the first data block which may contain an entry >= key
+			dataBlockHandle, ok := th.dataBlockIndex.SearchLowerBound(key)
 			if !ok {
 				// not in this sstable, search next one
 				continue
@@ -205,13 +209,17 @@ func (lm *levelManager) searchLowerBound(key types.Key) (types.Entry, bool) {
 
 			// in this sstable, search according to data block
 			entry, ok := lm.fetchAndSearchLowerBound(key, level, th.levelIdx, dataBlockHandle)
-			if ok {
-				return entry, true
+			if !ok || !types.IsSameKey(key, entry.Key) {
+				// lower bound belongs to another key, search next one
+				continue
+			}
+			if !found || types.CompareKeys(entry.Key, res.Key) < 0 {
+				res, found = entry, true
 			}
 		}
 	}
 
-	return types.Entry{}, false
+	return res, found
 }
 
 // TODO: replace with iterator
